@@ -163,10 +163,16 @@ def search(ctx):
                 own = []
             longs = [o for o in own if o.startswith("--") and len(o) > 4]
             abbrevs = sorted({o.split("=")[0][:k] for o in longs for k in range(3, len(o.split("=")[0]))} | {"--v", "--ve", "--ver", "--h", "--he", "--o", "--out", "--f", "--t"})
-            for _ in range(per):
-                words = [r.pick(abbrevs) + r.pick(["", "", "=x"]) if r.chance(0.25) else r.pick(own) if own and r.chance(0.6) else r.pick(generic) for _ in range(r.randint(1, 4))]
+            # deterministic part: every option of the handler as the last word (a value-taking option without its value),
+            # after a file argument, and every abbreviation of its long options; then random combinations
+            fixed = [[o] for o in own] + [["f", o] for o in own] + [[a] for a in abbrevs] + [[a + "=x"] for a in abbrevs[:40]]
+            for it in range(len(fixed) + per):
+                if it < len(fixed):
+                    words = fixed[it]
+                else:
+                    words = [r.pick(abbrevs) + r.pick(["", "", "=x"]) if r.chance(0.25) else r.pick(own) if own and r.chance(0.6) else r.pick(generic) for _ in range(r.randint(1, 4))]
                 cmd = cmdname + " " + " ".join(shlex.quote(x) if not x.startswith("'") else x for x in words)
-                if r.chance(0.2):
+                if it >= len(fixed) and r.chance(0.2):
                     cmd = "cat f | " + cmd
                 stats["handler_sweep"] += 1
                 so, se = io.StringIO(), io.StringIO()
